@@ -394,6 +394,10 @@ def cases(draw, tier):
     elif cell_name == "ciq":
         cell = {"ciq_samples": True}
     case = {"recipe": r, "k": k, "cell": cell, "cell_name": cell_name, "mode": mode}
+    if mode == "sample" and r["op"] == "PsdSum" and cell_name != "ciq" and draw(st.integers(0, 2)) == 0:
+        # an operator DERIVED by arithmetic from the generated one: PsdSum(A, .., B) - B/2 is still PSD, but not a sum of PSD
+        # terms any more (whatever class the library gives the result, its sampler must use a root of the whole matrix)
+        case["derive"] = "minus_half_last"
     open_tr = _open_triggers()
     if any(nm in open_tr and pred(case) for nm, pred in sorted(LANCZOS_TRIGGERS.items())):
         # same recipe, roots by Cholesky instead of Lanczos while the finding is open
@@ -694,7 +698,15 @@ def _reference(case, op_for_precond=None):
         A = root @ root.transpose(-1, -2)
         A = A + torch.diag_embed(dg.expand(*A.shape[:-1]))
         return A
-    return refmodel.dense(r)
+    return _ref_dense(case)
+
+
+def _ref_dense(case):
+    r = case["recipe"]
+    A = refmodel.dense(r)
+    if case.get("derive") == "minus_half_last":
+        A = A - 0.5 * refmodel.dense(r["args"][-1])
+    return A
 
 
 def _psd_subrecipes(r):
@@ -742,7 +754,7 @@ def _check(case):
     dtname = R.dtype_of(r)
     u = tol.u_of(dtname)
     try:
-        ref0 = refmodel.dense(r)
+        ref0 = _ref_dense(case)
     except Exception as e:
         raise HarnessError("reference model raised %r" % (e,))
     n = ref0.shape[-1]
@@ -804,6 +816,8 @@ def _check(case):
                 op = P
                 if info["precond"] is None:
                     info["precond"] = op
+            if case.get("derive") == "minus_half_last":
+                op = op - op.linear_ops[-1] * 0.5
             if info["kind"] == "?":
                 info["kind"] = _kind(op)
             s = op.zero_mean_mvn_samples(k)
